@@ -295,13 +295,12 @@ def oracle(case, obs):
         sets = [set(c[key]) for c in cs]
         return set.union(*sets) if mode == 'union' else set.intersection(*sets)
     want_o, want_s = idset(om, 'oids'), idset(sm, 'sids')
-    pre = ''
     if not want_o or not want_s:
         if obs != ['err', 1]:
-            return [pre + 'no id is left on an axis but the merge was not refused with TableException: %s' % obs[:2]]
+            return ['no id is left on an axis but the merge was not refused with TableException: %s' % obs[:2]]
         return []
     if obs[0] != 'ok':
-        return [pre + 'merge of tables with common ids was refused: %s' % obs]
+        return ['merge of tables with common ids was refused: %s' % obs]
     r = obs[1]
     fails = []
     for key, want in (('oids', want_o), ('sids', want_s)):
